@@ -1,4 +1,5 @@
 # C11 - FLV output is a valid FLV byte stream; WebSocket framing.
+import hashlib
 from lib.vf import Case
 from gen.common import *
 
@@ -60,6 +61,33 @@ def gen_cases(tier, rng):
         yield Case("c11.file %s" % tl, cls="file")
         yield Case("c11.sub 0 %s" % tl, cls="sub-plain")
         yield Case("c11.sub 1 %s" % tl, cls="sub-ws")
+    # recordings with ONE large tag among small ones (a writer that buffers small writes and passes large ones through
+    # must keep the order): every call pattern of lal's callers, digest output
+    small = lambda: "%d:%d:%s" % (rng.choice([8, 9, 18]), rng.randrange(1 << 24), payload_tok(rng, rng.choice([0, 1, 7, 40, 300, 2000])))
+    bigtok = lambda n: "9:%d:r%d.%d" % (rng.randrange(1 << 24), n, 1 + n % 5)   # few distinct large tokens: the oracle memoises them
+    sizes = [((1 << 12) - 15, "m"), (1 << 12, "m"), ((1 << 16) - 15, "m"), (1 << 16, "m"), ((1 << 17) - 15, "m"), (1 << 17, "m"),
+             ((1 << 18) - 15 - 1, "fml"), ((1 << 18) - 15, "fml"), (1 << 18, "fml"), (300000, "fml"), (1 << 19, "fml")]
+    for n, where in sizes:
+        for pos in where:
+            for mode in ("raw", "tag") if (pos == "m" and n >= (1 << 18) - 16) or tier != "quick" else ("raw",):
+                before = [small() for _ in range({"f": 0, "m": 2, "l": 4}[pos])]
+                after = [small() for _ in range({"f": 4, "m": 2, "l": 0}[pos])]
+                yield Case("c11.rec %s %s" % (mode, ",".join(before + [bigtok(n)] + after)), cls="rec-large-" + {"f": "first", "m": "middle", "l": "last"}[pos])
+    for mode, pos in [("raw", 2), ("tag", 0)] if tier == "quick" else [(m, q) for m in ("raw", "tag", "rawh", "mix") for q in range(5)]:
+        tl = [small() for _ in range(4)]
+        tl.insert(pos, bigtok(1 << 20))
+        yield Case("c11.rec %s %s" % (mode, ",".join(tl)), cls="rec-1MiB")
+    for mode in ("rawh", "mix"):
+        for n in (300000, 1 << 18):
+            tl = [small() for _ in range(3)]
+            tl.insert(rng.randrange(4), bigtok(n))
+            yield Case("c11.rec %s %s" % (mode, ",".join(tl)), cls="rec-large-" + mode)
+    # two large tags, and small recordings through every mode
+    yield Case("c11.rec raw 9:1:r300000.1,8:2:0102,9:3:r262144.5", cls="rec-large-two")
+    for mode in ("raw", "tag", "rawh", "mix"):
+        yield Case("c11.rec %s -" % mode, cls="rec-small")
+        for _ in range(6 if tier == "quick" else 60):
+            yield Case("c11.rec %s %s" % (mode, ",".join(small() for _ in range(rng.choice([1, 2, 5, 9])))), cls="rec-small")
     if tier == "thorough":
         for n in [(1 << 24) - 1, (1 << 24) - 2]:
             yield Case("c11.pack 9 4294967295 r%d.7" % n, cls="pack-max")
@@ -135,13 +163,39 @@ def ref_ws_frames(b):
     return out
 
 
+def fast_tok_bytes(tok):
+    """tok_bytes without a python call per byte (1 MiB r-tokens)"""
+    if "+" in tok:
+        return b"".join(fast_tok_bytes(t) for t in tok.split("+"))
+    if tok[:1] == "r":
+        if tok in _memo:
+            return _memo[tok]
+        n, seed = tok[1:].split(".")
+        n, seed = int(n), int(seed) * 1000003
+        b = bytes([((x ^ (x >> 8) ^ (x >> 16)) & 0xff) for x in
+                   (((seed + i * 7919 + (i // 251) * 104729) & 0x7fffffff) for i in range(n))])
+        if n >= 100000:
+            if len(_memo) >= 12:
+                _memo.clear()
+            _memo[tok] = b
+        return b
+    return tok_bytes(tok)
+
+
+_memo = {}
+
+
+def digest(b):
+    return "0x%x:%s:%s:%s" % (len(b), hashlib.md5(b).hexdigest(), hex_tok(b[:64]), hex_tok(b[-64:]))
+
+
 def parse_tag_items(tok):
     if tok == "-":
         return []
     out = []
     for it in tok.split(","):
         t, ts, p = it.split(":")
-        out.append((num(t), num(ts), tok_bytes(p)))
+        out.append((num(t), num(ts), fast_tok_bytes(p)))
     return out
 
 
@@ -184,6 +238,24 @@ def oracle(c, out):
                     bt, bs, bts, braw = s.split(":")
                     if (num(bt), num(bs), num(bts)) != (t, len(p), ts) or tok_bytes(braw) != ref_pack(t, ts, p):
                         return (False, "lal's FLV reader returns a different tag")
+            return (True, "")
+        if op == "c11.rec":
+            # the file is fully determined by the FLV layout: header, then each tag in the order written
+            tags = parse_tag_items(f[2])
+            if out.startswith("err-write"):
+                return (False, "a write to the recording failed: " + out)
+            o = out.split(" ")
+            want = b"FLV\x01\x05\0\0\0\x09\0\0\0\0" + b"".join(ref_pack(*t) for t in tags)
+            if o[0] != digest(want):
+                got = o[0].split(":")
+                return (False, "recording is not FLV header + the tags in the order written: %s bytes starting %s, expected %d bytes starting %s" % (
+                    got[0], got[2][:32], len(want), want[:16].hex()))
+            back = [] if o[2] == "-" else o[2].split(",")
+            if int(o[1]) != len(tags) or len(back) != len(tags):
+                return (False, "lal's FLV reader returns %s tags, %d written" % (o[1], len(tags)))
+            for s, (t, ts, p) in zip(back, tags):
+                if s != "0x%x:0x%x:0x%x:%s" % (t, len(p), ts, digest(ref_pack(t, ts, p))):
+                    return (False, "lal's FLV reader returns a different tag")
             return (True, "")
         if op == "c11.modts":
             t, ts, p = num(f[1]), num(f[2]), tok_bytes(f[3])
